@@ -316,6 +316,12 @@ def install(handler, g):
                 want = F.rms_norm(x, (8,), None, 1e-5).float()
                 if not torch.allclose(got, want, rtol=5e-2, atol=1e-3):
                     return True, f"rms_norm in {dt} with |x|~{mag}: max abs difference to F.rms_norm {float((got - want).abs().max()):.4g} (rms of the input computed wrongly)"
+            for dt in (torch.bfloat16, torch.float16, torch.float32, torch.float64):
+                for wt in (None, torch.ones(8, dtype=dt)):
+                    x = torch.randn(4, 8, dtype=torch.float64).to(dt)
+                    got, want = U.rms_norm(x, (8,), wt, 1e-5), F.rms_norm(x, (8,), wt, 1e-5)
+                    if got.dtype != want.dtype:
+                        return True, f"rms_norm({dt} input, weight={'None' if wt is None else 'given'}) returns {got.dtype}, F.rms_norm returns {want.dtype}"
             return False, "rms_norm agrees with F.rms_norm in all tried dtypes"
         if job.startswith("core:logarithmic_interpolation"):
             from unit_scaling.core.functional import logarithmic_interpolation as li
